@@ -207,6 +207,46 @@ ENGINES.append({"name": "twzmon.comp", "path": "twzmon/compjobs.py", "serves_pro
                 "kind_free_text": "compose oracle (runtime monitoring, differential)"})
 NOT_APPLICABLE[:] = [x for x in NOT_APPLICABLE if x["property_id"] not in CHECKS]
 
+# ---- texts refreshed after the seeded-change rounds (workloads were widened, see DESIGN.md section 12) --------------------
+_EXTRA = {
+    "C02": " Workloads: flat shapes under the completion-order controller (random + exhaustive DFS), nested programs (depth 2) with the "
+           "per-call-site argument clause, post-build / between-call reconfiguration, None-returning and indexed opaque results, the "
+           "repository's own tests under the spec-free monitors (W3).",
+    "C03": " Also: nested programs with per-call-site entry counters (prefixed ids predicted by the monitor), histories with setup()/"
+           "setup([])/deferred executors/deepcopy, executors re-run after tawazi and non-tawazi failures, W3.",
+    "C04": " Also: max_concurrency / resource reconfiguration after the build, every pool created during one operation counted together, "
+           "timed waits may expire (injected), nested programs and W3 under the spec-free monitors.",
+    "C05": " Also: target/exclude/root executors, partial reconfiguration, sequential functions inside nested DAGs judged by the generator's "
+           "own knowledge, W3.",
+    "C06": " Also: call/reload/call on one object, actual start of queued nodes judged against deliveries made meanwhile (controlled runs).",
+    "C07": " Also: RUN_DEBUG_NODES on + target, composed DAGs, executors created after a reload with an already used selection, executors "
+           "re-run after a failure, priority 0.",
+    "C08": " Also: ALL_COMPLETED waits judged completion by completion with hypothetical deliveries, every dispatched node must be running "
+           "when the scheduler blocks (controlled runs), setup nodes and explicit setup() operations, re-used pools.",
+    "C09": " Also: executor re-runs (a normal return with a selected active node not run), default step limit on every workload, hang watchdog "
+           "with stack-sampling verdict.",
+    "C14": " Also: profiling on, frame-less builds (original exception expected), BaseException faults, W3.",
+}
+for _k, _v in _EXTRA.items():
+    CHECKS[_k]["text"] += _v
+CHECKS["C16"]["text"] += (" Also: call sites sharing one activation flag raced by threads with flags of different truthiness (flag evaluation is a "
+                          "pre-emption point), identical thread names, defaults intact after the concurrent calls, a shared DAG with a setup node "
+                          "must not block on a paused build, sys.monitoring LINE-event yield injection inside tawazi's build/scheduling code.")
+CHECKS["C17"]["text"] += (" Also: gathers with unset setup nodes and with one failing await next to a bystander coroutine, identical call/toggle/"
+                          "reload histories on a DAG and an AsyncDAG, liveness handshake with one failing and one running async-thread node.")
+CHECKS["C18"]["text"] += (" Also: several cache_deps_of nodes, the same path rewritten and restarted from, re-caching restarts, an executor first "
+                          "called before the file exists, setup nodes (instance-level model), None results.")
+CHECKS["C19"]["text"] += (" Also: is_async / max_concurrency overrides, refused composes attempted without judging the outcome (the original must "
+                          "stay intact), None / falsy defaults.")
+CHECKS["C11"]["text"] += (" Also: deferred executors, configuration reloads naming setup nodes, controller-chosen completion orders, None-returning "
+                          "setup functions, a setup node inside a nested DAG.")
+CHECKS["C12"]["text"] += " Also: empty-list selections, keyed return values of unselected nodes, tags that are substrings of other tags / contain node ids."
+CHECKS["C13"]["text"] += " Also: illegal builds through keyword / activation-flag dependencies, failing debug nodes, debug nodes inside nested DAGs built under the other flag value."
+CHECKS["C15"]["text"] += " Also: composes with node inputs and keyword uses, BaseException faults, activation flags that are defaulted DAG arguments."
+CHECKS["C01"]["text"] += " Also: decorated functions failing on both sides (the DAG call must raise whenever plain Python does), whole-DAG executors, profiling on, rejected descriptions between builds."
+CHECKS["C10"]["text"] += " Also: per-call twz_unpack_to, indexed opaque (possibly falsy) results, rejected descriptions between builds."
+CHECKS["C20"]["text"] += " Also: containers of nested DAGs passed on unchanged (type-strict), sequential behaviour of nested nodes, rejected descriptions between builds."
+
 NOTES = (
     "Technique family: runtime monitoring. Compiler sanitizers / TSan / valgrind do not apply (pure Python); their Python-level "
     "analogues are used (lockset monitor, forced pre-emption, stack sampling). Exit codes: 0 held on everything explored, 1 VIOLATION, "
